@@ -18,6 +18,10 @@ OFFSETS = {32: (-1, -1), 64: (-1, 0), 128: (-1, 1),
            8: (1, -1), 4: (1, 0), 2: (1, 1)}
 CODES8 = [1, 2, 4, 8, 16, 32, 64, 128]
 ALPHABET = [0, 1, 2, 4, 8, 16, 32, 64, 128, 3]     # 3 = invalid code
+# other invalid codes: combinations, byte range ends, values whose low byte
+# or absolute value is a direction code, no-data style values
+INVALID = [3, 5, 255, 256, 257, 258, 260, 384, 513, -128, -1, -4, -9999,
+           1000, 2**31 - 1, -2**31, 65536 + 4]
 
 
 def down_model(fd):
@@ -175,6 +179,12 @@ def random_grid(draw, maxdim=12, kinds=("uniform", "forest", "forest",
                 fd.append(exits[choice[c] % len(exits)])
             else:
                 fd.append(0)
+    # a few cells overwritten with other invalid codes (terminal cells)
+    if draw(st.integers(0, 3)) == 0:
+        fd = list(fd)
+        for _ in range(draw(st.integers(1, 3))):
+            fd[draw(st.integers(0, n - 1))] = draw(st.sampled_from(INVALID))
+        kind = kind + "+invalid-codes"
     return {"shape": [nr, nc], "fd": fd, "kind": kind}
 
 
